@@ -114,7 +114,7 @@ Proof. exact GlobalProofs.blank_insensitive_import. Qed.
 Print Assumptions C12_blank_insensitive_import.
 
 (** resolveImports and flattenModel never clear the flag *)
-Theorem C12_resolve_keeps_or_sets : forall g docs, step g (OResolve docs) = false -> g = false.
+Theorem C12_resolve_keeps_or_sets : forall g docs maths, step g (OResolve docs maths) = false -> g = false.
 Proof. exact GlobalProofs.resolve_keeps_or_sets. Qed.
 Print Assumptions C12_resolve_keeps_or_sets.
 
@@ -313,3 +313,37 @@ Theorem C12_counter_member_refuted :
     result_after nat nat cls init body [0] 0 <> result_after nat nat cls init body [] 0.
 Proof. exact GlobalProofs.counter_member_refuted. Qed.
 Print Assumptions C12_counter_member_refuted.
+
+(** ** 8. flattenModel: a new object comes back, the argument is only read (regenerated from Importer::flattenModel) *)
+
+(** the only expression ever assigned to the returned variable is a clone of the argument *)
+Theorem C12_flatten_result_is_a_clone : GlobalSites.flatten_result_exprs = ["model->clone()"].
+Proof. exact GlobalProofs.flatten_result_is_a_clone. Qed.
+Print Assumptions C12_flatten_result_is_a_clone.
+
+(** every call whose receiver is the argument is a reader, and the argument is handed to readers only *)
+Theorem C12_flatten_argument_only_read :
+  flatten_reads_argument_only GlobalSites.flatten_calls GlobalSites.flatten_model_passed = true.
+Proof. exact GlobalProofs.flatten_argument_only_read. Qed.
+Print Assumptions C12_flatten_argument_only_read.
+
+(** linkUnits — the statement that repairs unlinked units in place — is applied to the clone and to nothing else *)
+Theorem C12_flatten_links_the_clone :
+  filter (fun rm => String.eqb (snd rm) "linkUnits") GlobalSites.flatten_calls = [("flatModel", "linkUnits")].
+Proof. exact GlobalProofs.flatten_links_the_clone. Qed.
+Print Assumptions C12_flatten_links_the_clone.
+
+(** in the frame model: the result is an object that did not exist before the call *)
+Theorem C12_result_is_new_object : forall (s : svc) (w : world) (old : nat),
+  (forall i, i < next_id w -> i <> result_object w)
+  /\ result_object w < next_id (run w (actions_of (next_id w) old (service_writes true true s))).
+Proof. exact GlobalProofs.result_is_new_object. Qed.
+Print Assumptions C12_result_is_new_object.
+
+(** every observation of every pre-existing object (content, references to other objects, hasUnlinkedUnits /
+    hasUnresolvedImports / isDefined / interface types / ids) is the same after the call *)
+Theorem C12_services_preserve_every_observation : forall (X : Type) (f : observation X) (s : svc) (w : world) (old i : nat),
+  i < next_id w ->
+  f (content (run w (actions_of (next_id w) old (service_writes true true s))) i) = f (content w i).
+Proof. exact GlobalProofs.services_preserve_every_observation. Qed.
+Print Assumptions C12_services_preserve_every_observation.
